@@ -619,3 +619,22 @@ func ZZ_C01_alloc_worker() {
 		zz.Unreachable("the worker either replies or closes the channel")
 	}
 }
+
+// C01 (an address is handed to at most one pod): an interface may only be
+// given up - its address sets reset, its addresses free for re-issue by the
+// cloud - when no pod holds any of its addresses, IPv4 or IPv6.  Arbitrary
+// pool with both families.
+func ZZ_C01_interface_kept_while_held() {
+	f := zzNewFactory(false)
+	l, slots := zzPool(2, 2, f)
+	zz.Assume(zzInv(slots))
+	l.eniType = zz.OneOf("eni.type", "secondary", "trunk", "erdma", "Secondary")
+	l.eni.Trunk = zz.Bool("eni.trunk")
+	anyHeld := false
+	for _, s := range slots {
+		anyHeld = zz.Or(anyHeld, s.ip.podID != "")
+	}
+	ok := l.canDispose()
+	zz.Assert(zz.Implies(ok, !anyHeld), "an interface with an address held by a pod - in either family - is never given up")
+	zz.Assert(zz.Implies(ok, zz.And(!l.eni.Trunk, l.eniType != "trunk", l.eniType != "erdma")), "trunk and RDMA interfaces are never given up")
+}
